@@ -299,8 +299,8 @@ def nud__child_path(self: XPathToken) -> XPathToken:
 @method('//')
 @method('/')
 def led__child_or_descendant_path(self: XPathToken, left: XPathToken) -> XPathToken:
-    if left.symbol in ('/', '//', ':', '[', '$', '('):
-        pass
+    if left.symbol in ('/', '//', ':', '[', '$', '(') or left.label == 'function':
+        pass  # XPath 1.0 [19]: FilterExpr '/' RelativeLocationPath, a FunctionCall is a PrimaryExpr
     elif left.label not in self.parser.PATH_STEP_LABELS and \
             left.symbol not in self.parser.PATH_STEP_SYMBOLS:
         raise self.wrong_syntax()
